@@ -342,5 +342,5 @@ func gen(t *rapid.T) Case {
 }
 
 func TestC08(t *testing.T) {
-	ev.Explore(run, t, "fingerprint", run.N(100, 1200), gen, exec)
+	ev.Explore(run, t, "fingerprint", run.N(100, 2500), gen, exec)
 }
